@@ -54,11 +54,19 @@ def build_dataset(grid):
 
     nm = Names(grid.get("names"))
     coords = {}
+    how = grid.get("coordvals", "regular")
     for ax in grid["axes"]:
         for p, d in ax["pos"]:
             L = plen(p, ax["n"])
             base = {"center": 1, "left": 0, "right": 2, "inner": 2, "outer": 0}[p]
-            coords[nm(d)] = (nm(d), np.arange(L) * 2.0 + base)
+            vals = np.arange(L) * 2.0 + base
+            if how == "decreasing":
+                vals = -vals                                   # labels decrease along the dimension
+            elif how == "irregular":
+                vals = vals ** 2 + 0.25 * (np.arange(L) % 3)   # unevenly spaced, still strictly increasing
+            elif how == "unsorted":
+                vals = (vals * 7) % (2 * L + 3) + 0.001 * np.arange(L)   # distinct labels in no order at all
+            coords[nm(d)] = (nm(d), vals)
     for d, L in grid.get("extra", []):
         coords[nm(d)] = (nm(d), np.arange(L) * 1.0)
     if grid.get("faces"):
@@ -105,6 +113,19 @@ def make_array(arr, names=None, ds=None, name=None):
     data = np.array([float("nan") if v == "nan" else float(v) for v in arr["flat"]], dtype="float64").reshape(arr["shape"])
     if arr.get("dtype") in ("float32", "int64", "int32"):
         data = data.astype(arr["dtype"])       # small integers: exact in every one of these types
+    lay = arr.get("layout")
+    if lay == "F":
+        data = np.asfortranarray(data)                         # column-major
+    elif lay == "strided" and data.ndim >= 1:
+        big = np.zeros([2 * s_ for s_ in data.shape], dtype=data.dtype)
+        view = big[tuple(slice(None, None, 2) for _ in data.shape)]
+        view[...] = data
+        data = view                                            # a non-contiguous view into a larger buffer
+    elif lay == "reversed" and data.ndim >= 1:
+        data = np.ascontiguousarray(data[..., ::-1])[..., ::-1]    # negative stride along the last dimension
+    elif lay == "readonly":
+        data = data.copy()
+        data.setflags(write=False)                             # the caller's buffer must not be written to anyway
     da = xr.DataArray(data, dims=[nm(d) for d in arr["dims"]], name=name)
     if ds is not None:
         da = da.assign_coords({d: ds[d] for d in da.dims if d in ds.coords})
